@@ -271,6 +271,41 @@ pub async fn liquidation(w: &mut World, m: &mut Mon, r: &mut R, lev: &Lev, lq: u
         let i = w.ix_liquidate(lq, le, ca, db, lkp, amt);
         let _ = w.probe(m, &[i], &[&lk]).await;
     }
+    // a second collateral whose price has gone stale: the assessment of the account must fail
+    // rather than count that collateral as nothing (which could make a healthy account look
+    // liquidatable); the monitor judges any liquidation that goes through
+    if r.gen_bool(0.3) {
+        let c2s: Vec<usize> = (0..w.banks.len()).filter(|b| *b != ca && *b != db && usable_collateral(w, *b) && matches!(w.banks[*b].oracle, OracleD::Pyth(_) | OracleD::Swb(_))).collect();
+        if !c2s.is_empty() {
+            let c2 = pick(r, &c2s);
+            let le_auth = w.auth_of(le);
+            let amt2 = pick(r, &[1_000_000u64, 1 << 30, 1 << 36]);
+            let i = w.ix_deposit(le, c2, le_auth.pubkey(), w.ta_of(le, c2), amt2, None);
+            if w.exec(m, &[i], &[&le_auth]).await.ok() {
+                let b2 = w.bank(c2);
+                let saved = save_price(w, c2);
+                let now = w.chain.now();
+                match w.banks[c2].oracle.clone() {
+                    OracleD::Pyth(k) => {
+                        let max_age = if b2.config.oracle_max_age == 0 { 60 } else { b2.config.oracle_max_age as i64 };
+                        let p = w.pyth[&k];
+                        w.set_pyth(&k, PythPx { publish_time: now - max_age - 1, ..p });
+                    }
+                    OracleD::Swb(k) => {
+                        let p = w.swb[&k];
+                        w.set_swb(&k, SwbPx { last_update: now - b2.config.oracle_max_age as i64 - 1, ..p });
+                    }
+                    _ => {}
+                }
+                for amt in [1u64, 1000] {
+                    let i = w.ix_liquidate(lq, le, ca, db, lkp, amt);
+                    let o = w.probe(m, &[i], &[&lk]).await;
+                    m.r.count(if o.ok() { "scen.liquidation_with_stale_second_collateral_accepted" } else { "scen.liquidation_with_stale_second_collateral_rejected" });
+                }
+                restore_price(w, c2, saved);
+            }
+        }
+    }
     let acc = w.acct(le);
     let bank = w.bank(ca);
     let q = BankQ::of(&bank);
@@ -430,6 +465,39 @@ pub async fn bankruptcy(w: &mut World, m: &mut Mon, r: &mut R, lev: &Lev, g: usi
     }
 }
 
+/// Staleness boundary of the collateral's price as the risk gate sees it: exactly at the maximum
+/// age the collateral still counts (a borrow that is healthy with it must not be refused), one
+/// second older it counts as nothing. Both probes are judged by the C04 monitors.
+pub async fn age_boundary(w: &mut World, m: &mut Mon, lev: &Lev) {
+    let bank = w.bank(lev.ca);
+    let (is_pyth_plain, key) = match w.banks[lev.ca].oracle.clone() {
+        OracleD::Pyth(k) => (true, k),
+        OracleD::Swb(k) => (false, k),
+        _ => return,
+    };
+    let max_age = if bank.config.oracle_max_age == 0 && is_pyth_plain { 60 } else { bank.config.oracle_max_age as i64 };
+    let auth = w.auth_of(lev.acct);
+    let ak = auth.pubkey();
+    w.refresh_oracles();
+    let now = w.chain.now();
+    for extra in [0i64, 1] {
+        let ts = now - max_age - extra;
+        if is_pyth_plain {
+            let p = w.pyth[&key];
+            w.set_pyth(&key, PythPx { publish_time: ts, ..p });
+        } else {
+            let p = w.swb[&key];
+            w.set_swb(&key, SwbPx { last_update: ts, ..p });
+        }
+        let i = w.ix_borrow(lev.acct, lev.db, ak, w.ta_of(lev.acct, lev.db), 1);
+        let o = w.probe(m, &[i], &[&auth]).await;
+        m.r.count(&format!("scen.age_boundary/{}/{}", if extra == 0 { "at-max-age" } else { "one-second-older" }, if o.ok() { "accepted" } else { "rejected" }));
+        let i = w.ix_withdraw(lev.acct, lev.ca, ak, w.ta_of(lev.acct, lev.ca), 1, None);
+        let _ = w.probe(m, &[i], &[&auth]).await;
+    }
+    w.refresh_oracles();
+}
+
 /// C09 (chain side): doctor the oracle of the collateral or the debt bank (stale by +-1 s around
 /// the boundary, wrong owner, partial verification, wide confidence, zero / negative price) and
 /// drive every valuation-consuming instruction through it; the reference model decides what must
@@ -587,6 +655,19 @@ pub async fn wipeout(w: &mut World, m: &mut Mon, r: &mut R, g: usize, lender: us
         return None;
     }
     let ca = pick(r, &cands);
+    // a second, small borrower who will still owe when the bank is wiped out
+    let (small, sauth) = {
+        let u2 = w.add_user(1u64 << 44).await;
+        let a2 = w.add_account(g, u2).await;
+        let k2 = w.auth_of(a2);
+        let i = w.ix_deposit(a2, ca, k2.pubkey(), w.ta_of(a2, ca), 1u64 << 40, None);
+        let _ = w.exec(m, &[i], &[&k2]).await;
+        let want = dep / 20;
+        let i = w.ix_borrow(a2, db, k2.pubkey(), w.ta_of(a2, db), want);
+        let o = w.exec(m, &[i], &[&k2]).await;
+        m.r.count(if o.ok() { "scen.wipeout_second_borrower" } else { "scen.wipeout_second_borrower_failed" });
+        (a2, k2)
+    };
     // borrower with plenty of collateral borrows everything
     let u = w.add_user(1u64 << 44).await;
     let a = w.add_account(g, u).await;
@@ -636,6 +717,17 @@ pub async fn wipeout(w: &mut World, m: &mut Mon, r: &mut R, g: usize, lender: us
     let _ = w.exec(m, &[i], &[&lk]).await;
     let i = w.ix_repay(lender, db, lkp, lt, 5, None);
     let _ = w.exec(m, &[i], &[&lk]).await;
+    // the other borrower still owes the dead bank: closing the balance must not drop the debt
+    {
+        let sk = sauth.pubkey();
+        let i = ix::close_balance(gk, w.accts[small].key, sk, w.banks[db].key);
+        let o = w.exec(m, &[i], &[&sauth]).await;
+        m.r.count(if o.ok() { "scen.killed_bank_debtor_close_balance_accepted" } else { "scen.killed_bank_debtor_close_balance_rejected" });
+        let i = w.ix_repay(small, db, sk, w.ta_of(small, db), 0, Some(true));
+        let _ = w.exec(m, &[i], &[&sauth]).await;
+        let i = ix::close_balance(gk, w.accts[lender].key, lkp, w.banks[db].key);
+        let _ = w.exec(m, &[i], &[&lk]).await;
+    }
     // admin paths that could change the state
     for st in [BankOperationalState::Operational, BankOperationalState::Paused, BankOperationalState::ReduceOnly] {
         let mut opt = BankConfigOpt::default();
